@@ -29,7 +29,8 @@ EXPLANATION = (
     " (R19) only the two committers write the pointer (write-namespace census, C09.R1): no lock-free 'repair' of the hint."
     ' R11 also forbids ordering over text (file names, regex groups, tuples starting with one); R15 requires the published content to be the bare name; (R20) the local mtime is returned untruncated.'
     ' (R21) the name _new_metadata_filename builds is in the language of the metadata regex (scenario); (R22) version numbers are never truth-tested; R11 also forbids a text component before the mtime in any max / min / sorted over recovery candidates; R1 reads regexes assembled from named pieces.'
-    ' (R23) hint-less recovery by scenario: over a scripted listing of two files of ONE version (either order) the more recently modified one is resolved, and a higher version wins over a newer file of a lower version.')
+    ' (R23) hint-less recovery by scenario: over a scripted listing of two files of ONE version (either order) the more recently modified one is resolved, and a higher version wins over a newer file of a lower version.'
+    ' R13 demands the FULL resolution behind the new version number (the resolver itself, or - analysed in place - the pointer parse together with the recovery scan).')
 NOT_DECIDED = ("byte-level pointer grammar x histories at run time; orphans left by a crash (no exception path exists to "
                "clean them - format limitation)")
 
